@@ -387,7 +387,7 @@ fn check_chain(r: &Roots, chain: &[ChainStep]) -> Result<usize, String> {
     }
 }
 
-const RULE: &str = "(1) EXHAUSTIVE: every string that is a concatenation of <=N tokens over {'/','.','..','a','b.c','é'} (N=7 quick, 9 thorough) joined onto 5 bases, for VfsPath and AsyncVfsPath; (2) random: strings over a wider alphabet (spaces, backslash, combining marks, 4-byte scalars, NUL, up to 64 tokens) and arbitrary Strings, composition pairs, and chains of join/parent/root up to length 12; oracle = 15-line reference resolver + canonical-form predicate + accessor laws (parent, filename, extension, root, is_root, equality across two instances); non-trivial = argument with >=1 '..' and >=1 other component, or a multi-byte character adjacent to a separator, or a chain with >=3 joins; distinct by (base,arg) hash";
+const RULE: &str = "(1) EXHAUSTIVE: every string that is a concatenation of <=N tokens over {'/','.','..','a','b.c','é'} (N=7 quick, 10 thorough) joined onto 5 bases, for VfsPath and AsyncVfsPath; (2) random: strings over a wider alphabet (spaces, backslash, combining marks, 4-byte scalars, NUL, up to 64 tokens) and arbitrary Strings, composition pairs, and chains of join/parent/root up to length 12; oracle = 15-line reference resolver + canonical-form predicate + accessor laws (parent, filename, extension, root, is_root, equality across two instances); non-trivial = argument with >=1 '..' and >=1 other component, or a multi-byte character adjacent to a separator, or a chain with >=3 joins; distinct by (base,arg) hash";
 
 pub fn replay(v: &Value) -> CaseResult {
     let r = Roots::new();
@@ -427,10 +427,10 @@ pub fn run(ctx: &RunCtx) -> i32 {
         println!("VIOLATION property={} replay={}", ctx.id, path);
         return 1;
     }
-    let max_tokens = ctx.tier.pick(7, 9);
+    let max_tokens = ctx.tier.pick(7, 10);
     let (mut stats, mut failure) = exhaustive(ctx, max_tokens);
     if failure.is_none() {
-        let n = ctx.tier.pick(400_000, 5_000_000);
+        let n = ctx.tier.pick(400_000, 20_000_000);
         let (s2, f2) = run_sharded(
             ctx,
             "random",
@@ -463,7 +463,7 @@ pub fn run(ctx: &RunCtx) -> i32 {
         failure = f2;
     }
     if failure.is_none() {
-        let n = ctx.tier.pick(100_000, 1_000_000);
+        let n = ctx.tier.pick(100_000, 5_000_000);
         let (s3, f3) = run_sharded(ctx, "chains", n, chain_strategy, |chain, st, counting| {
             let r = Roots::new();
             let joins = check_chain(&r, chain).map_err(|m| Failure {
